@@ -164,6 +164,16 @@ func c13Skeletons() []c13skel {
 	add("fact", "{rule:{action:v}}", func(v interface{}) interface{} { return m("rule", m("when", P(), "action", v)) })
 	add("fact", "{rule:{actions:v}}", func(v interface{}) interface{} { return m("rule", m("when", P(), "actions", v)) })
 	add("fact", "{rule:{schedule:v}}", func(v interface{}) interface{} { return m("rule", m("schedule", v, "action", A())) })
+	// two reserved positions at once: a `when` that the canary event matches AND a hole
+	// elsewhere, so that anything a rejected input leaves behind in the rule index is
+	// exercised by the canary traffic
+	C := func() interface{} { return m("pattern", m("ev", "?c")) }
+	add("fact", "{rule:{when:canary,schedule:v}}", func(v interface{}) interface{} { return m("rule", m("when", C(), "schedule", v, "action", A())) })
+	add("fact", "{rule:{when:canary,action:v}}", func(v interface{}) interface{} { return m("rule", m("when", C(), "action", v)) })
+	add("fact", "{rule:{when:canary,condition:v}}", func(v interface{}) interface{} { return m("rule", m("when", C(), "condition", v, "action", A())) })
+	add("fact", "{rule:{when:canary},expires:v}", func(v interface{}) interface{} { return m("rule", m("when", C(), "action", A()), "expires", v) })
+	add("rule", "{when:canary,schedule:v}", func(v interface{}) interface{} { return m("when", C(), "schedule", v, "action", A()) })
+	add("rule", "{when:canary,expires:v}", func(v interface{}) interface{} { return m("when", C(), "action", A(), "expires", v) })
 	add("fact", "{rule:{action:{code:v}}}", func(v interface{}) interface{} { return m("rule", m("when", P(), "action", m("code", v))) })
 	add("fact", "{k,expires:v}", func(v interface{}) interface{} { return m("k", "x", "expires", v) })
 	add("fact", "{k,ttl:v}", func(v interface{}) interface{} { return m("k", "x", "ttl", v) })
